@@ -240,7 +240,11 @@ class Scrollable(WidgetDecoration[WrappedWidget]):
 
         # Even if the canvas fits without trimming, the scroll position has to be reset
         # and the keypress forwarding decision below has to be made
+        old_trim_top = self._trim_top
         self._adjust_trim_top(canv, size)
+        if self._trim_top != old_trim_top:
+            # canvases cached for other sizes / focus states were cut at the old position
+            self._invalidate()
 
         # Trim canvas if necessary
         trim_top = self._trim_top
